@@ -151,6 +151,11 @@ def run_belt(cfg):
                     if d > 0:
                         yield env.timeout(d)
                     it = FlowItem(gid, 0)
+                    if cfg.get("prestamp"):
+                        # the item has ridden another conveyor before (two conveyors in series, a rework loop): it carries
+                        # that ride's entry / exit stamps
+                        it.conveyor_entry_time = env.now - 3 * cfg["slot"] / float(Q)
+                        it.conveyor_exit_time = env.now
                     items[gid] = it
                     tok = conv.reserve_put()
                     log("req", gid)
